@@ -25,7 +25,7 @@
                            a started batch b and [produced (log of b) (keys of b) (key of cl) o]. *)
 From Coq Require Import List Arith NArith Bool.
 Import ListNotations.
-Require Import Aiuti.Case_Batcher Aiuti.Case_Batcher_Sound Aiuti.Batcher Aiuti.BatcherLimits Aiuti.BatcherTime Aiuti.BatcherInv Aiuti.BatcherProps.
+Require Import Aiuti.Case_Batcher Aiuti.Case_Batcher_Sound Aiuti.Case_Batcher_Basic Aiuti.Batcher Aiuti.BatcherLimits Aiuti.BatcherTime Aiuti.BatcherInv Aiuti.BatcherProps.
 
 (* Each caller gets exactly its own outcome.  If the trace says caller i completed
    with outcome o, then caller i's key is the key of its call, the item that carries
@@ -91,7 +91,27 @@ Theorem no_task_died :
 Proof. exact no_task_died_lemma. Qed.
 Print Assumptions no_task_died.
 
-(* Monitor soundness, PARTIAL.  The trace monitor ok_C04 (Case_Batcher.v) that judges
+(* The basic sub-monitor [ok_basic] (a conjunct of ok_C04, ok_C10 and ok_C11: per macro
+   step no TaskDied, every completion carries the script clock, no caller completes twice,
+   every batch is non-empty, carries no key twice and does not start in the script's
+   future) is COMPLETE — it accepts the canonical trace of the model for ALL
+   configurations and ALL event lists, so it cannot raise a false alarm on a case where
+   the implementation agrees with the model — and SOUND. *)
+Theorem monitor_basic_complete :
+  forall c evs w, cfg_ok c -> Forall ev_ok evs ->
+  ok_basic (BCase c evs (map canon (fst (run c evs))) w) = true.
+Proof. exact ok_basic_complete. Qed.
+Print Assumptions monitor_basic_complete.
+
+Theorem monitor_basic_sound :
+  forall c evs observed w, ok_basic (BCase c evs observed w) = true ->
+  forall os, In os observed ->
+    ~ In TaskDied os /\ NoDup (map (fun d => fst (fst d)) (dones_of os)) /\
+    forall b items t, In (BatchStart b items t) os -> 1 <= length items /\ NoDup (map fst items).
+Proof. exact ok_basic_sound. Qed.
+Print Assumptions monitor_basic_sound.
+
+(* Soundness of the full monitor, PARTIAL.  The trace monitor ok_C04 (Case_Batcher.v) that judges
    the implementation's observed trace is independent of the model.  Proved here:
    acceptance implies that no TaskDied was observed and that no caller completes
    twice within a macro step.  NOT proved as a theorem (full statement: "ok_C04 accepts
